@@ -42,6 +42,11 @@ Definition snap_ok (s : sys) (hs : hstate) (sn : hsnap) : bool :=
 
 Definition assigns_of (ls : list label) : list (worker * task) :=
   omap (λ l, match l with LAssign w t _ => Some (w, t) | _ => None end) ls.
+Definition srcs_of (ls : list label) : list (gmap ds host) :=
+  omap (λ l, match l with LAssign _ _ m => Some m | _ => None end) ls.
+(* the step of the heuristic-driven system the theorems of Sched/ProgressFull.v speak about is enabled *)
+Definition hassign_enabled (J : job) (E : env) (o : orc) (s : sys) (hs : hstate) (ls : list label) : bool :=
+  match hexec J E (s, hs) (HAssign o (srcs_of ls)) with Next _ => true | _ => false end.
 
 (* `if has_computable(state): for a in assign(...)` *)
 Definition model_assign (J : job) (E : env) (o : orc) (s : sys) (hs : hstate)
@@ -63,6 +68,7 @@ Fixpoint hreplay (J : job) (E : env) (s : sys) (hs : hstate) (rs : list hround) 
       match model_assign J E (to_orc (hr_orc r)) s hs with
       | Next (asg, hs1) =>
           if negb (bool_decide ((λ a : cid * worker * task, (a.1.2, a.2)) <$> asg = assigns_of (r_ctl rd))) then None else
+          if negb (hassign_enabled J E (to_orc (hr_orc r)) s hs (r_ctl rd)) then None else
           match run_ctl J E s (r_ctl rd) (r_cmds rd) with
           | None => None
           | Some s1 =>
@@ -93,6 +99,7 @@ Inductive hdbg :=
 | HSnap (r : nat) (model_cs : list (list N * Z)) (model_h2c : list (N * option nat)) (model_idle : list N)
 | HCrash (r : nat) (e : string)
 | HAsg (r : nat) (model : list (cid * worker * task)) (real : list (worker * task))
+| HNotEnabled (r : nat)
 | HCtl (r : nat)
 | HEnv (r : nat).
 
@@ -109,6 +116,7 @@ Fixpoint dbg_hreplay (J : job) (E : env) (s : sys) (hs : hstate) (rs : list hrou
       | Next (asg, hs1) =>
           if negb (bool_decide ((λ a : cid * worker * task, (a.1.2, a.2)) <$> asg = assigns_of (r_ctl rd)))
           then inr (HAsg k asg (assigns_of (r_ctl rd))) else
+          if negb (hassign_enabled J E (to_orc (hr_orc r)) s hs (r_ctl rd)) then inr (HNotEnabled k) else
           match run_ctl J E s (r_ctl rd) (r_cmds rd) with
           | None => inr (HCtl k)
           | Some s1 =>
